@@ -1,2 +1,14 @@
 #!/bin/sh
-exit 0
+# Builds the whole framework offline from files on disk: extractor, harness, Lean development.
+set -e
+cd /verif
+export GOFLAGS=-mod=mod GOPROXY=off GOSUMDB=off GOTOOLCHAIN=local
+mkdir -p build/work
+(cd extract && go build -o ../build/extract .)
+./build/extract -repo /repo -out lean/CoreBGP/Gen
+cp /repo/go.sum harness/go.sum 2>/dev/null || true
+for c in l0 live; do
+  if [ -d harness/cmd/$c ]; then (cd harness && go build -tags verif -o ../build/$c ./cmd/$c); fi
+done
+(cd lean && lake build driver CoreBGP CoreBGP.AuditCmd)
+echo setup done
